@@ -350,6 +350,8 @@ class Run:
             if f["id"] in hit:
                 out_lines.append(f"KNOWN-FINDING: property={p.id} {f['what']}")
         core.REPLAYS.mkdir(exist_ok=True)
+        for old in core.REPLAYS.glob(f"{p.id}-{self.seed}-*.json"):
+            old.unlink()
         nrep = 0
         viol_lines = []
         for v in unlisted[:10]:
